@@ -579,7 +579,7 @@ def _generator_kind(ctx, m):
              "the flag is never true with driver_column_names; _init_metadata stores compiled._cached_metadata only under it")
 def r5(ctx):
     from . import _helpers_str2_e as SE
-    from ._helpers_rob_D2 import single_defs, resolve
+    from ._helpers_rob_D2 import single_defs, resolve, guards_of, atoms_of
     cls = ctx.index.cls(CRM)
     f = cls.methods.get("_merge_cursor_description")
     ctx.require(f is not None, f"{CRM}._merge_cursor_description not found")
@@ -652,8 +652,9 @@ def r5(ctx):
     dcn = [p for p in f.params if p == "driver_column_names"]
     ctx.require(dcn, "_merge_cursor_description has no driver_column_names parameter")
     bad = []
+    pm_f = f.module.parents()
     for s in stores:
-        atoms = resolved_guard_atoms(g, s, f.node)
+        atoms = resolved_guard_atoms(g, s, f.node) | atoms_of(guards_of(g, pm_f, f.node, g.node(s).stmt, defs))
         if (dcn[0], False) in atoms:
             continue
         if True in truths(s, {dcn[0]: True}):
@@ -677,9 +678,7 @@ def r5(ctx):
         for s in sts:
             n_cons += 1
             val = dotted(resolve(s.value, fdefs)) or unparse(s.value)
-            atoms = set()
-            for nid in gf.nodes_for(s):
-                atoms |= resolved_guard_atoms(gf, nid, fn.node)
+            atoms = atoms_of(guards_of(gf, fn.module.parents(), fn.node, s, fdefs))
             good = any(p and a.endswith("." + FLAG) and a.rsplit(".", 1)[0] in (val, dotted(s.value)) for a, p in atoms)
             ctx.check(good, f"{fn.key}:cached-only-if-safe", f"`{unparse(s)[:60]}` is not control-dependent on `{val}.{FLAG}`: metadata whose key -> position map depends on what the "
                                                             "cursor reported is reused for later executions", f"if {val}.{FLAG}: compiled._cached_metadata = {val}", f"{fn.module.path}:{s.lineno}")
@@ -826,3 +825,83 @@ R.mutant("index-for-key-get-form-swallows-unknown-key", CUR,
 R.mutant("fast-path-named-condition-without-count-check", CUR,
          sub("        if (\n            num_ctx_cols\n            and cols_are_ordered\n            and not textual_ordered\n            and num_ctx_cols == len(cursor_description)\n            and not driver_column_names\n        ):\n",
              "        same_count = num_ctx_cols <= len(cursor_description)\n        if (\n            num_ctx_cols\n            and cols_are_ordered\n            and not textual_ordered\n            and same_count\n            and not driver_column_names\n        ):\n"), "C11-R2")
+
+# ---- str2-e (round-2 seeds C11_1 / C11_2): _adapt_to_context judged on models (R4), cache safety of the metadata (R5)
+_ADAPT_MERGE = (
+    "        return self._make_new_metadata(\n"
+    "            keymap=self._keymap\n"
+    "            | {\n"
+    "                new: keymap_by_position[idx]\n"
+    "                for idx, new in enumerate(\n"
+    "                    invoked_statement._all_selected_columns\n"
+    "                )\n"
+    "                if idx in keymap_by_position\n"
+    "            },\n"
+)
+_ADAPT_HEAD = "        return self._make_new_metadata(\n            keymap=keymap,\n"
+_ADAPT_LOOP = ("        keymap = dict(self._keymap)\n"
+               "        for idx, new in enumerate(invoked_statement._all_selected_columns):\n"
+               "            if idx in keymap_by_position:\n")
+# essence of seed C11_1: the cached statement's entry wins for an object that is already a key
+R.mutant("adapt-cached-entry-wins-setdefault", CUR,
+         sub(_ADAPT_MERGE, _ADAPT_LOOP + "                keymap.setdefault(new, keymap_by_position[idx])\n\n" + _ADAPT_HEAD), "C11-R4")
+R.mutant("adapt-merge-direction-reversed", CUR,
+         sub(_ADAPT_MERGE,
+             "        return self._make_new_metadata(\n            keymap={\n                new: keymap_by_position[idx]\n                for idx, new in enumerate(\n"
+             "                    invoked_statement._all_selected_columns\n                )\n                if idx in keymap_by_position\n            }\n            | self._keymap,\n"), "C11-R4")
+R.mutant("adapt-position-without-record-not-skipped", CUR,
+         sub("                    invoked_statement._all_selected_columns\n                )\n                if idx in keymap_by_position\n            },\n",
+             "                    invoked_statement._all_selected_columns\n                )\n            },\n"), "C11-R4")
+R.mutant("adapt-off-by-one-position", CUR, sub("                new: keymap_by_position[idx]\n", "                new: keymap_by_position.get(idx + 1, keymap_by_position[idx])\n"), "C11-R4")
+R.mutant("benign-adapt-copy-and-assign-loop", CUR,
+         sub(_ADAPT_MERGE, _ADAPT_LOOP + "                keymap[new] = keymap_by_position[idx]\n\n" + _ADAPT_HEAD), None)
+R.mutant("benign-adapt-dict-unpacking", CUR,
+         sub(_ADAPT_MERGE,
+             "        adapted = {\n            new: keymap_by_position[idx]\n            for idx, new in enumerate(invoked_statement._all_selected_columns)\n            if idx in keymap_by_position\n        }\n"
+             "        return self._make_new_metadata(\n            keymap={**self._keymap, **adapted},\n"), None)
+R.mutant("benign-adapt-copy-update-inverted-test", CUR,
+         sub(_ADAPT_MERGE,
+             "        keymap = self._keymap.copy()\n        for position, column in enumerate(\n            invoked_statement._all_selected_columns\n        ):\n"
+             "            if position not in keymap_by_position:\n                continue\n            keymap.update({column: keymap_by_position[position]})\n\n" + _ADAPT_HEAD), None)
+R.mutant("benign-adapt-merge-extracted-into-a-method", CUR, chain(
+    sub(_ADAPT_MERGE, "        return self._make_new_metadata(\n            keymap=self._rekeyed_for(invoked_statement, keymap_by_position),\n"),
+    sub("    def _adapt_to_context(self, context: ExecutionContext) -> Self:\n",
+        "    def _rekeyed_for(self, statement, by_position):\n        rekeyed = dict(self._keymap)\n        for idx, new in enumerate(statement._all_selected_columns):\n"
+        "            rec = by_position.get(idx)\n            if rec is not None:\n                rekeyed[new] = rec\n        return rekeyed\n\n"
+        "    def _adapt_to_context(self, context: ExecutionContext) -> Self:\n")), None)
+# R5
+_BY_NAME_FLAG = "                self._safe_for_cache = False\n                raw_iterator = self._merge_cols_by_name(\n"
+R.mutant("by-name-merge-marked-cache-safe", CUR,   # essence of seed C11_2
+         sub(_BY_NAME_FLAG, "                self._safe_for_cache = not driver_column_names\n                raw_iterator = self._merge_cols_by_name(\n"), "C11-R5")
+R.mutant("raw-string-merge-marked-cache-safe", CUR,
+         sub("                self._safe_for_cache = False\n                raw_iterator = self._merge_cols_by_none(\n", "                self._safe_for_cache = True\n                raw_iterator = self._merge_cols_by_none(\n"), "C11-R5")
+R.mutant("textual-merge-cache-safe-with-driver-names", CUR,
+         sub("                self._safe_for_cache = not driver_column_names\n                # textual positional case\n", "                self._safe_for_cache = True\n                # textual positional case\n"), "C11-R5")
+R.mutant("metadata-cached-without-looking-at-the-flag", CUR,
+         sub("                if metadata._safe_for_cache:\n                    compiled._cached_metadata = metadata\n", "                if metadata is not None:\n                    compiled._cached_metadata = metadata\n"), "C11-R5")
+R.mutant("flag-store-after-by-name-branches-overrides", CUR,
+         sub("            return [\n                (\n                    idx,\n                    ridx,\n                    obj,\n",
+             "            self._safe_for_cache = not driver_column_names\n            return [\n                (\n                    idx,\n                    ridx,\n                    obj,\n"), "C11-R5")
+R.mutant("benign-flag-default-hoisted", CUR, chain(
+    sub("            if textual_ordered or (\n                ad_hoc_textual and len(cursor_description) == num_ctx_cols\n            ):\n",
+        "            self._safe_for_cache = False\n            if textual_ordered or (\n                ad_hoc_textual and len(cursor_description) == num_ctx_cols\n            ):\n"),
+    sub(_BY_NAME_FLAG, "                raw_iterator = self._merge_cols_by_name(\n"),
+    sub("                self._safe_for_cache = False\n                raw_iterator = self._merge_cols_by_none(\n", "                raw_iterator = self._merge_cols_by_none(\n")), None)
+R.mutant("benign-flag-in-a-local-stored-once", CUR, chain(
+    sub("                self._safe_for_cache = not driver_column_names\n                # textual positional case\n", "                cacheable = not driver_column_names\n                # textual positional case\n"),
+    sub(_BY_NAME_FLAG, "                cacheable = False\n                raw_iterator = self._merge_cols_by_name(\n"),
+    sub("                self._safe_for_cache = False\n                raw_iterator = self._merge_cols_by_none(\n", "                cacheable = False\n                raw_iterator = self._merge_cols_by_none(\n"),
+    sub("            return [\n                (\n                    idx,\n                    ridx,\n                    obj,\n",
+        "            self._safe_for_cache = cacheable\n            return [\n                (\n                    idx,\n                    ridx,\n                    obj,\n")), None)
+R.mutant("flag-in-a-local-by-name-cacheable", CUR, chain(
+    sub("                self._safe_for_cache = not driver_column_names\n                # textual positional case\n", "                cacheable = not driver_column_names\n                # textual positional case\n"),
+    sub(_BY_NAME_FLAG, "                cacheable = not driver_column_names\n                raw_iterator = self._merge_cols_by_name(\n"),
+    sub("                self._safe_for_cache = False\n                raw_iterator = self._merge_cols_by_none(\n", "                cacheable = False\n                raw_iterator = self._merge_cols_by_none(\n"),
+    sub("            return [\n                (\n                    idx,\n                    ridx,\n                    obj,\n",
+        "            self._safe_for_cache = cacheable\n            return [\n                (\n                    idx,\n                    ridx,\n                    obj,\n")), "C11-R5")
+R.mutant("benign-cache-store-guard-through-alias-and-early-exit", CUR,
+         sub("                if metadata._safe_for_cache:\n                    compiled._cached_metadata = metadata\n",
+             "                reusable = metadata._safe_for_cache\n                if reusable:\n                    compiled._cached_metadata = metadata\n"), None)
+R.mutant("benign-by-name-branch-tested-first", CUR,
+         sub("                self._safe_for_cache = not driver_column_names\n                # textual positional case\n",
+             "                positional_text = True\n                self._safe_for_cache = positional_text and not driver_column_names\n                # textual positional case\n"), None)
